@@ -111,6 +111,12 @@ fn quorum_property<const N: usize>() {
                         repo.anc[t as usize] & (1 << h) == 0,
                         "C03: another sufficiently supported tip descends from the returned head"
                     );
+                    // ... and a head is only returned when it descends from all of them: mutually
+                    // divergent sufficiently supported tips must yield an error, not a head
+                    assert!(
+                        repo.anc[h as usize] & (1 << t) != 0,
+                        "C03: a head was returned although a sufficiently supported tip diverges from it"
+                    );
                 }
                 t += 1;
             }
